@@ -106,7 +106,7 @@ func c19(tier string) []*explore.Scenario {
 		out = append(out, c19Channel(cp, bound))
 	}
 	out = append(out, c19ChannelDoneCtxRead(1), c19ChannelDoneCtxRead(2), c19ChannelDoneCtxRead(0))
-	out = append(out, c19ChannelCtx(), c19ChannelWriters(1, 2, 2), c19ChannelWriters(2, 3, 2), c19ChannelWriters(1, 3, 1), c19ChannelWriters(0, 2, 1), c19ChannelWriters(4, 2, 1), c19HTTPShapes(), c19HTTPDuplex(), c19HTTPCtx(), c19HTTPWriteCtx(), c19HTTPRaw(), c19HTTPTruncated(), c19HTTPMapper(), c19HTTPResponseLost(), c19HTTPResetAcrossTimeout())
+	out = append(out, c19ChannelCtx(), c19ChannelTwoReaders(0), c19ChannelTwoReaders(1), c19ChannelWriters(1, 2, 2), c19ChannelWriters(2, 3, 2), c19ChannelWriters(1, 3, 1), c19ChannelWriters(0, 2, 1), c19ChannelWriters(4, 2, 1), c19HTTPShapes(), c19HTTPDuplex(), c19HTTPCtx(), c19HTTPWriteCtx(), c19HTTPRaw(), c19HTTPTruncated(), c19HTTPMapper(), c19HTTPResponseLost(), c19HTTPResetAcrossTimeout())
 	out = append(out, explore.Sharded(c19HTTPOrder("C19", 2, 2), 8)...)
 	for _, pending := range []string{"sender", "reader", "both", "none", "reader-after-abandoned-read", "write-in-flight-at-tick"} {
 		out = append(out, c19HTTPIdle(pending, bound))
@@ -233,6 +233,41 @@ func c19ChannelWriters(capn, k, bound int) *explore.Scenario {
 			}
 			if ok != want || len(out) != want {
 				vsched.Fail(fam+"|delivery", "%d concurrent Writes on a queue of capacity %d: %d reported success, the queue holds %d", k, capn, ok, len(out))
+			}
+		},
+	}
+}
+
+// c19ChannelTwoReaders: two Reads at once on one channel transport, each with a context of its own, nothing to read: each
+// returns once ITS context is done, whatever the other is doing (a second Serve on a transport another Serve reads).
+func c19ChannelTwoReaders(capn int) *explore.Scenario {
+	fam := "C19/channel"
+	return &explore.Scenario{
+		Name: fmt.Sprintf("C19/channel/two-readers/cap=%d", capn), Family: fam, Prop: "C19", Bound: 2,
+		Run: func() {
+			in, out := make(chan *goat.Rpc, capn), make(chan *goat.Rpc, capn)
+			rw := goat.NewGoatOverChannel(in, out)
+			vsched.Explore(true)
+			ctx1, cancel1 := context.WithCancel(context.Background())
+			ctx2, cancel2 := context.WithCancel(context.Background())
+			defer cancel1()
+			d1, d2 := false, false
+			var e1, e2 error
+			vsched.GoNamed("reader-1", func() { _, e1 = rw.Read(ctx1); d1 = true })
+			vsched.GoNamed("reader-2", func() { _, e2 = rw.Read(ctx2); d2 = true })
+			vsched.Quiesce()
+			cancel2()
+			vsched.Quiesce()
+			if !d2 || e2 == nil {
+				vsched.Fail(fam+"|read-ignores-ctx", "two Reads on one channel transport: the second did not return after ITS context was cancelled (done=%v err=%v) while the first is still waiting", d2, e2)
+			}
+			if d1 {
+				vsched.Fail(fam+"|delivery", "the first Read returned (%v) although nothing arrived and its context is alive", e1)
+			}
+			cancel1()
+			vsched.Quiesce()
+			if !d1 || e1 == nil {
+				vsched.Fail(fam+"|read-ignores-ctx", "the first Read did not return after its context was cancelled")
 			}
 		},
 	}
